@@ -64,3 +64,11 @@ Theorem C14_stranded : forall sched c s' l,
   forall t, In t (queue (run step init sched)) -> In t (queue s') /\ st s' t = Queued.
 Proof. exact stranded_all_schedules. Qed.
 Print Assumptions C14_stranded.
+
+(* what queue/threads/stop_count/active_count and the lock mean in every reachable state:
+   threads = the live workers, active_count = workers not waiting, live - stop_count =
+   requested, a pending stop request leaves no un-notified waiter, the lock is held across
+   steps only by shutdown's cancel loop *)
+Theorem C14_bookkeeping : forall sched, bookkeeping_spec (run step init sched).
+Proof. exact bookkeeping_all_schedules. Qed.
+Print Assumptions C14_bookkeeping.
